@@ -173,7 +173,7 @@ func run(r *ev.Run) {
 		r.Require("events", hugeEvents...)
 		r.Require("huge_over_max_limits", "10001", "20000", "100000", "4294967295", "over-max")
 		r.Require("events", repeatEvents...)
-		r.Require("repeat_files", "zero-run: packed")
+		r.Require("repeat_files", "zero-run: packed", "AAB: packed", "ABAC: packed", "run: packed", "ABABC: packed")
 		r.Require("events", "bs-root-audited", "index-root-audited")
 		r.Require("index_root_kinds", indexes...)
 	}
